@@ -354,7 +354,7 @@ def run_case(ctx, case):
 
 def run(ctx):
     install_invariant()
-    nprog = ctx.share(700 if ctx.quick else 60000)
+    nprog = ctx.share(700 if ctx.quick else 100000)
     base = ctx.seed * 10_000_019 + ctx.shard[0] * 1_000_003
     for k in range(nprog):
         before = len(STATE["stale"])
